@@ -101,7 +101,7 @@ Protos == IF auto THEN <<<<<<"name", "UDP">>>>>>
 Auto == IF auto THEN <<<<"auto-protocol", "true">>>> ELSE <<>>
 FirstHop == IF fwd THEN (IF byName THEN "fwd" ELSE FwdIp) ELSE (IF byName THEN "rcv" ELSE RcvIp)
 SendTree ==
-  [ nets |-> <<[id |-> "5", ips |-> <<<<<<"range", "123.45.67.89-95">>>>, <<<<"ip", "123.45.70.1">>>>>>]>>
+  [ nets |-> <<[id |-> "5", ips |-> <<<<<<"range", "123.45.67.89-95">>>>, <<<<"ip", "123.45.70.1">>>>, <<<<"range", "123.45.71.7-7">>>>>>]>>
              \o (IF twoNets THEN <<[id |-> "1", ips |-> <<<<<<"range", "12.34.56.89-90">>>>>>]>> ELSE <<>>),
     machs |-> <<[opts |-> Swap(<<<<"name", "snd">>>> \o (IF count > 0 THEN <<<<"count", ToString(count)>>>> ELSE <<>>)) \o Auto,
                  nets |-> <<<<<<"id", "5">>>>>> \o (IF twoNets THEN <<<<<<"id", "1">>>>>> ELSE <<>>),
@@ -118,7 +118,7 @@ SendTree ==
 PingIp == "123.45.67.89"
 PongIp == "123.45.67.90"
 PPTree ==
-  [ nets |-> <<[id |-> "5", ips |-> <<<<<<"range", "123.45.67.89-95">>>>, <<<<"ip", "123.45.70.1">>>>>>]>>
+  [ nets |-> <<[id |-> "5", ips |-> <<<<<<"range", "123.45.67.89-95">>>>, <<<<"ip", "123.45.70.1">>>>, <<<<"range", "123.45.71.7-7">>>>>>]>>
              \o (IF twoNets THEN <<[id |-> "1", ips |-> <<<<<<"range", "12.34.56.89-90">>>>>>]>> ELSE <<>>),
     machs |-> <<[opts |-> <<<<"name", "ping">>>> \o Auto,
                  nets |-> <<<<<<"id", "5">>>>>> \o (IF twoNets THEN <<<<<<"id", "1">>>>>> ELSE <<>>),
